@@ -331,6 +331,7 @@ type concOutcome struct {
 	overlapping int
 	crowd       bool // >40 concurrent clients: judged by the definite rules only
 	sibling     bool // a second database was busy in the same process
+	tsBase      uint64
 
 	markViolation string
 	markChecks    int64
@@ -386,6 +387,10 @@ func runConcWorkload(c core.Case, res *core.Result) *concOutcome {
 	if c.Int("deflog", 0) == 1 {
 		// the engine's own default logger instead of the harness's silent one
 		defer eng.DefaultLogger()()
+	}
+	if tb := int(c.Int("tsbase", 0)); tb > 0 {
+		eng.PlantTimestamp(dir, cfg, eng.TsBases[(tb-1)%len(eng.TsBases)])
+		out.tsBase = eng.TsBases[(tb-1)%len(eng.TsBases)]
 	}
 	if p := eng.Safely(func() { cr.db = eng.Open(dir, cfg) }); p != "" {
 		out.panicked = "Open: " + p
@@ -596,6 +601,9 @@ func runConc(c core.Case, owner string) core.Result {
 	if out.sibling {
 		res.AddObs("histories_with_a_second_database_in_the_process", 1)
 	}
+	if out.tsBase > 0 {
+		res.AddObs("histories_on_a_store_with_a_high_timestamp", 1)
+	}
 	if c.Int("deflog", 0) == 1 {
 		res.AddObs("histories_with_the_default_logger", 1)
 	}
@@ -670,6 +678,9 @@ func genTxn(prop string, tier string, seed int64, scriptedQ, scriptedT, concQ, c
 		if i < 2 {
 			c.N["sample"] = 1
 		}
+		if i%7 == 3 {
+			c.N["tsbase"] = int64(1 + (i/7)%5)
+		}
 		cs = append(cs, c)
 	}
 	for i := 0; i < nc; i++ {
@@ -690,6 +701,9 @@ func genTxn(prop string, tier string, seed int64, scriptedQ, scriptedT, concQ, c
 		}
 		if i < 1 {
 			c.N["sample"] = 1
+		}
+		if i%6 == 1 {
+			c.N["tsbase"] = int64(1 + (i/6)%5)
 		}
 		cs = append(cs, c)
 	}
